@@ -30,3 +30,38 @@ Print Assumptions C15_structural_levels.
 Theorem C15_levels_in_range : forallb (fun e => (1 <=? snd e) && (snd e <=? 4)) level_table = true /\ length level_table = 31%nat.
 Proof. split; vm_compute; reflexivity. Qed.
 Print Assumptions C15_levels_in_range.
+
+(* ---- no silent failure of the expression / binding parser ----
+   The character-level parser model (Model/ExprParse.v, tied to parse/expr.rs and parse/tag.rs by the
+   correspondence on ASTs AND on the diagnostics of single bindings) records for every failure whether a
+   diagnostic was added before failing.  For every input: the expression parser either has added a diagnostic
+   or has failed exactly at the end of the input; and a binding that yields no expression always comes with a
+   diagnostic of the binding parser (empty expression, missing expression end, unexpected character after the
+   expression) or of the expression parser - an unterminated or garbled binding is never dropped silently. *)
+From GE Require Import Model.ExprParse Proofs.ParseDiag.
+Theorem C15_expression_failure_is_diagnosed_or_at_end : forall fuel s,
+  match parse_cond_fuel fuel s with
+  | PFail pos warned => warned = true \/ pos = []
+  | POk _ _ => True
+  end.
+Proof. exact parse_cond_fuel_wd. Qed.
+Print Assumptions C15_expression_failure_is_diagnosed_or_at_end.
+
+Theorem C15_failed_binding_is_diagnosed : forall tdata s,
+  match binding_d tdata s with
+  | (Some _, _, d) => d = DOk
+  | (None, _, d) => diagnosed d
+  end.
+Proof. exact failed_binding_is_diagnosed. Qed.
+Print Assumptions C15_failed_binding_is_diagnosed.
+
+(* binding_d is binding with its diagnostic *)
+Theorem C15_binding_d_is_binding : forall t s, let '(e, rest, _) := binding_d t s in binding t s = (e, rest).
+Proof. exact binding_d_binding. Qed.
+Print Assumptions C15_binding_d_is_binding.
+
+Example C15_diagnosed_examples :
+  snd (binding_d false (lit " a b }} x")) = DGarbage /\ snd (binding_d false (lit " a + ")) = DMissingEnd false /\
+  snd (binding_d false (lit " a + ) }} x")) = DInner true /\ snd (binding_d false (lit " /* c */ }}")) = DEmpty /\
+  snd (binding_d false (lit " 'abc }} x")) = DMissingEnd false /\ snd (binding_d false (lit " a ? b }} x")) = DInner true.
+Proof. repeat split; vm_compute; reflexivity. Qed.
